@@ -48,8 +48,17 @@ def new_list(items):
     return Ref(cur().alloc(Content("list", tuple(items))), "list")
 
 
-def new_dict(d):
-    return Ref(cur().alloc(Content("dict", dict(d))), "dict")
+def new_dict(d, unordered=False):
+    """unordered=True: a mapping whose insertion order is an input the contract does not fix (see dict_order_observed)"""
+    return Ref(cur().alloc(Content("dict", dict(d), {"unordered": True} if unordered else None)), "dict")
+
+
+def dict_order_observed(ref, what):
+    """called by every operation whose result depends on the insertion order of a dict (keys/values/items, iteration, list(d)).
+    For a mapping declared `unordered` by the contract the order is an unquantified input: the engine does not pick one (that would
+    prove order-dependent code for a single order only) but stops the path at an engine limit, and the replay decides."""
+    if isinstance(ref, Ref) and ref.kind == "dict" and (cur().heap[ref.sid].meta or {}).get("unordered"):
+        raise PyRaise("unresolved-callee", f"{what} observes the insertion order of a mapping whose order the contract leaves unspecified")
 
 
 def new_obj(cls, attrs, frozen=False):
@@ -941,6 +950,7 @@ class Interp:
                     raise EngineError("iteration over symbolic-length list")
                 return list(c)
             if v.kind == "dict":
+                dict_order_observed(v, "iteration over a dict")
                 return list(v.content.keys())
         if isinstance(v, A.Arr):
             n = v.shape[0] if v.shape else None
